@@ -955,6 +955,24 @@ def check_meiosis_calls(prog, rep, cname):
         rep.unrec("C02-R5-generator", f.qualname, "no mat_mate / mat_dh call found")
     elif good:
         rep.ok("C02-R5-generator", f.qualname, "all %d mat_mate / mat_dh calls receive pgmat.vrnt_xoprob and self.rng" % n)
+    # C02-R6: the progeny carry the parents' crossover probabilities and map coordinates (the next generation recombines with them)
+    ctors = [x for x in walk_no_nested(f.node) if isinstance(x, ast.Call) and "vrnt_xoprob" in kwargs_of(x)[0] and x.func is not None
+             and not (isinstance(x.func, ast.Name) and x.func.id in ("mat_mate", "mat_dh"))]
+    if len(ctors) != 1:
+        rep.unrec("C02-R6-carry", f.qualname, "expected one progeny matrix construction with vrnt_xoprob=")
+        return
+    kws, _ = kwargs_of(ctors[0])
+    bad = False
+    for k in ("vrnt_xoprob", "vrnt_chrgrp", "vrnt_genpos", "vrnt_phypos"):
+        v = kws.get(k)
+        v = _resolve(v, defs) if v is not None else None
+        if not (isinstance(v, ast.Attribute) and isinstance(v.value, ast.Name) and v.value.id == "pgmat" and v.attr == k):
+            rep.violate("C02-R6-carry", f.qualname, "the progeny matrix receives %s=%s, not the parents' %s: the next generation bred from these progeny recombines "
+                        "with the wrong %s" % (k, dump(v) if v is not None else "<nothing>", k, "probabilities" if k == "vrnt_xoprob" else "map coordinates"),
+                        where(f, ctors[0]), "pgmat." + k, dump(v) if v is not None else "absent")
+            bad = True
+    if not bad:
+        rep.ok("C02-R6-carry", f.qualname, "progeny carry pgmat.vrnt_xoprob / vrnt_chrgrp / vrnt_genpos / vrnt_phypos under their own names")
 
 
 def check_siblings(prog, rep):
